@@ -65,6 +65,7 @@ func runC20(c *fw.Ctx) {
 	r.versionsAndWork()
 	r.policies()
 	r.allTypes()
+	r.jsonTrees()
 	r.updates()
 	r.flush()
 }
